@@ -748,9 +748,10 @@ def _gen_track(rng, ops, cfg, prop, single_key_meter):
         if tick_mode:
             # any value with a whole tick count is legal (288/value integral), not only the named ones:
             # entries of t ticks in a long bar, biased to the variable-length-quantity boundaries
-            ops.append({"op": "bar", "key": key, "meter": [16, 4]})
+            big = rng.choice([[16, 4], [16, 4], [64, 4], [255, 4], [128, 8], [32, 2]])
+            ops.append({"op": "bar", "key": key, "meter": big})
             b = sum(1 for o in ops if o["op"] == "bar") - 1
-            left = 1152
+            left = 288 * big[0] // big[1]
             for i in range(rng.randrange(1, 9)):
                 t = rng.choice([1, 2, 3, 32, 63, 64, 65, 96, 127, 128, 128, 129, 160, 255, 256, 257, 300, rng.randrange(1, 400), rng.randrange(1, 400)])
                 if t > left:
